@@ -501,3 +501,76 @@ pub fn summarize(src: &str, lang: Lang, options_json: Option<&str>) -> Summary {
         },
     }
 }
+
+/// Free (unresolved) identifier names of a source text: parse, run `resolver`, collect every
+/// identifier whose syntax context carries the unresolved mark.
+pub fn free_vars_of_code(
+    src: &str,
+    lang: Lang,
+    jsx: bool,
+) -> Result<std::collections::BTreeSet<String>, String> {
+    GLOBALS.set(&Globals::new(), || {
+        let cm: Lrc<SourceMap> = Default::default();
+        let mut m = parse(&cm, src, lang.syntax(jsx), None).map_err(|e| format!("{e:?}"))?;
+        let unresolved = Mark::new();
+        let top = Mark::new();
+        m.visit_mut_with(&mut resolver(unresolved, top, lang == Lang::Tsx));
+        Ok(free_vars(&m, unresolved))
+    })
+}
+
+pub fn free_vars(m: &Module, unresolved: Mark) -> std::collections::BTreeSet<String> {
+    struct V {
+        unresolved: Mark,
+        out: std::collections::BTreeSet<String>,
+    }
+    impl Visit for V {
+        fn visit_ident(&mut self, i: &Ident) {
+            if i.ctxt.has_mark(self.unresolved) {
+                self.out.insert(i.sym.to_string());
+            }
+        }
+    }
+    let mut v = V {
+        unresolved,
+        out: Default::default(),
+    };
+    m.visit_with(&mut v);
+    v.out
+}
+
+/// Occurrence counts of generated identifiers in the raw output: identifiers whose syntax
+/// context does not occur anywhere in the resolved input (and is not the empty context).
+pub fn generated_ident_counts(t: &Transformed) -> Vec<(String, usize)> {
+    use swc_core::common::SyntaxContext;
+    struct Ctxts(std::collections::HashSet<SyntaxContext>);
+    impl Visit for Ctxts {
+        fn visit_ident(&mut self, i: &Ident) {
+            self.0.insert(i.ctxt);
+        }
+    }
+    let mut input_ctxts = Ctxts(Default::default());
+    t.input.visit_with(&mut input_ctxts);
+    struct Count<'a> {
+        input: &'a std::collections::HashSet<SyntaxContext>,
+        counts: std::collections::BTreeMap<(String, u32), usize>,
+    }
+    impl Visit for Count<'_> {
+        fn visit_ident(&mut self, i: &Ident) {
+            if i.ctxt != SyntaxContext::empty() && !self.input.contains(&i.ctxt) {
+                *self
+                    .counts
+                    .entry((i.sym.to_string(), i.ctxt.as_u32()))
+                    .or_default() += 1;
+            }
+        }
+    }
+    let mut c = Count {
+        input: &input_ctxts.0,
+        counts: Default::default(),
+    };
+    if let Some(raw) = &t.raw {
+        raw.visit_with(&mut c);
+    }
+    c.counts.into_iter().map(|((s, _), n)| (s, n)).collect()
+}
